@@ -284,10 +284,12 @@ theorem frame_callers_partial (fx : Fixes) (env : HEnv K) (h : Heap K) (cs : Lis
 
 /-! ### sampling is stable -/
 
-/-- sampling reads only the locations `reads` lists -/
-theorem sample_congr (env : HEnv K) (h h' : Heap K) (o : Nat) (xs : List K)
+/-- whatever is computed from an object's model and its tables depends only on the locations `reads`
+lists -/
+theorem reads_congr (h h' : Heap K) (o : Nat)
     (ho : (h.objs[o]?).isSome) (hsame : ∀ l ∈ reads h o, h'.get l = h.get l) :
-    sample env h' o xs = sample env h o xs := by
+    ∃ ob ob', h.objs[o]? = some ob ∧ h'.objs[o]? = some ob' ∧ ob'.model = ob.model ∧
+      ∀ m ∈ ob.tree.tables, h'.table m = h.table m := by
   obtain ⟨ob, hob⟩ := Option.isSome_iff_exists.mp ho
   have hr : reads h o = [.objModel o, .objZ o] ++ ob.tree.tables.flatMap fun m =>
       .table m :: (match h.tables[m]? with
@@ -332,6 +334,13 @@ theorem sample_congr (env : HEnv K) (h h' : Heap K) (o : Nat) (xs : List K)
       exact hp
     · cases ha : h'.arrays[c.vals]? <;> cases hb : h.arrays[c.vals]? <;> simp [ha, hb] at hv ⊢
       exact hv
+  exact ⟨ob, ob', hob, hob', hmodel, htab⟩
+
+/-- sampling reads only the locations `reads` lists -/
+theorem sample_congr (env : HEnv K) (h h' : Heap K) (o : Nat) (xs : List K)
+    (ho : (h.objs[o]?).isSome) (hsame : ∀ l ∈ reads h o, h'.get l = h.get l) :
+    sample env h' o xs = sample env h o xs := by
+  obtain ⟨ob, ob', hob, hob', hmodel, htab⟩ := reads_congr h h' o ho hsame
   unfold sample
   rw [hob, hob']
   simp only [hmodel]
@@ -343,6 +352,25 @@ theorem sample_congr (env : HEnv K) (h h' : Heap K) (o : Nat) (xs : List K)
     intro m hmem
     rw [model_tables ob t hm] at hmem
     exact htab m hmem
+
+/-- … and so does the `waveset` property (hence `waverange` and every default-wavelength result) -/
+theorem waveset_congr (thr : K) (bbss : K → Option (List K)) (h h' : Heap K) (o : Nat)
+    (ho : (h.objs[o]?).isSome) (hsame : ∀ l ∈ reads h o, h'.get l = h.get l) :
+    waveset thr bbss h' o = waveset thr bbss h o := by
+  obtain ⟨ob, ob', hob, hob', hmodel, htab⟩ := reads_congr h h' o ho hsame
+  unfold waveset
+  rw [hob, hob']
+  simp only [hmodel]
+  cases hm : ob.model with
+  | error e => rfl
+  | ok t =>
+    simp only [bind, Except.bind]
+    have : t.sampleset thr bbss h' = t.sampleset thr bbss h := by
+      apply sampleset_congr
+      intro m hmem
+      rw [model_tables ob t hm] at hmem
+      exact htab m hmem
+    rw [this]
 
 /-- **sampling any live object before and after any history gives identical values**, provided the
 history's documented mutators and (for unrepaired code) hidden writes stay off what the object reads -/
@@ -373,6 +401,26 @@ theorem sample_stable_repaired (env : HEnv K) (h : Heap K) (cs : List (Call K)) 
   sample_stable Fixes.repaired env h cs o xs ho hlive
     (fun l _ hm => by rw [hpure] at hm; simp at hm)
     (fun l _ hm => by rw [hiddenAlong_repaired] at hm; simp at hm)
+
+/-- **the default-wavelength readings of a live object (`waveset`, hence `waverange`, `integrate()`,
+`avgwave()` …) are the same before and after any history** whose documented mutators and hidden
+writes stay off what the object reads; and after an assignment to the object itself they are those of
+its *current* state: `waveset` is a function of the store, it has no memory -/
+theorem waveset_stable (fx : Fixes) (env : HEnv K) (thr : K) (bbss : K → Option (List K)) (h : Heap K)
+    (cs : List (Call K)) (o : Nat) (ho : (h.objs[o]?).isSome)
+    (hlive : ∀ l ∈ reads h o, (h.get l).isSome)
+    (hd : ∀ l ∈ reads h o, l ∉ documentedAlong fx env h cs)
+    (hh : ∀ l ∈ reads h o, l ∉ hiddenAlong fx env h cs) :
+    waveset thr bbss (run fx env h cs) o = waveset thr bbss h o := by
+  apply waveset_congr thr bbss h _ o ho
+  intro l hl
+  obtain ⟨c, hc⟩ := Option.isSome_iff_exists.mp (hlive l hl)
+  rw [hc]
+  exact frame_partial fx env h cs l c
+    (fun hm => by
+      rcases List.mem_append.mp hm with hm | hm
+      · exact hd l hl hm
+      · exact hh l hl hm) hc
 
 /-- every store reached by a history from the caller's initial pool is well-formed, so every one of
 its objects is live: the hypotheses `hlive` above hold for whatever a history has built -/
